@@ -519,8 +519,10 @@ class Connection(ExportImport):
             # We are importing an export file. We alsways do this
             # while making a savepoint so we can copy export data
             # directly to our storage, typically a TmpStore.
-            self._importDuringCommit(transaction, *self._import)
-            self._import = None
+            # Forget the request first: if the import fails, a later
+            # transaction must not run it again.
+            import_args, self._import = self._import, None
+            self._importDuringCommit(transaction, *import_args)
 
         # Just in case an object is added as a side-effect of storing
         # a modified object.  If, for example, a __getstate__() method
